@@ -236,6 +236,10 @@ bool StepScript(InterpreterEnv& env)
             return set_error(serror, SCRIPT_ERR_EVAL_FALSE);
         // Additional validation for spend-to-script-hash transactions:
         if (env.script.IsPayToScriptHash()) {
+            // scriptSig must be literals-only or validation fails
+            if (!env.scriptsig_push_only)
+                return set_error(serror, SCRIPT_ERR_SIG_PUSHONLY);
+
             // // scriptSig must be literals-only or validation fails
             // if (!scriptSig.IsPushOnly())
             //     return set_error(serror, SCRIPT_ERR_SIG_PUSHONLY);
@@ -273,9 +277,9 @@ bool StepScript(InterpreterEnv& env)
         // (each script is evaluated on its own: conditionals must be balanced, the alt stack is not carried over)
         if (!vfExec.empty())
             return set_error(serror, SCRIPT_ERR_UNBALANCED_CONDITIONAL);
-        const bool spk_is_p2sh = (env.flags & SCRIPT_VERIFY_P2SH) && env.successor_script.IsPayToScriptHash();
-        if (((env.flags & SCRIPT_VERIFY_SIGPUSHONLY) || spk_is_p2sh) && !script.IsPushOnly())
-            return set_error(serror, SCRIPT_ERR_SIG_PUSHONLY);
+        // (the push-only rules for the scriptSig are applied where consensus applies them: SIGPUSHONLY before anything is
+        // evaluated - see Instance::setup_environment -, the P2SH one after the scriptPubKey has succeeded)
+        env.scriptsig_push_only = script.IsPushOnly();
         // every script that is evaluated is subject to the size limit, not only the first one of the session
         // (checked before anything is changed: a refused step leaves the session as it was)
         if (env.successor_script.size() > MAX_SCRIPT_SIZE)
